@@ -850,6 +850,111 @@ def run(ctx):
             ctx.sample({"call": call[:200], "result": res_txt[:120]}, cap=6)
 
     core.pmap(do_batch, range(nb))
+    arity_memcheck(ctx)
+
+
+# ---- short and ill-typed argument lists under valgrind memcheck ------------------------------------------------------------------
+# ASan cannot see a read of an argument slot that was never passed (it is inside the fiber stack allocation); memcheck can, because a
+# fresh fiber's stack is uninitialised. Every C function of the core environment is called in a fresh fiber with argument lists of
+# length 0..3 drawn from a palette of types. A memcheck report inside one of the property's families is a violation; reports in other
+# functions are listed in the evidence only (no property of this set covers them).
+SWEEP = r'''
+(def deny (tabseq [n :in (string/split " " (get (dyn :args) 1))] (symbol n) true))
+(def seed (scan-number (get (dyn :args) 2)))
+(def per (scan-number (get (dyn :args) 3)))
+(def rng (math/rng seed))
+(def palette [nil 1 -1 0.5 "s" @"b" :k 'sym @[1 2] [1 2] @{:a 1} {:a 1} (fn [&] 1) 1e308 math/nan "" @"" [] @[] true (int/s64 1) 4294967296 -2147483648])
+(defn pick [] (get palette (math/rng-int rng (length palette))))
+(each name (sort (filter symbol? (all-bindings root-env true)))
+  (def v (get-in root-env [name :value]))
+  (when (and (cfunction? v) (not (get deny name)))
+    (def sets @[[]])
+    (each p palette (array/push sets [p]))
+    (for i 0 per (array/push sets [(pick) (pick)]))
+    (for i 0 per (array/push sets [(pick) (pick) (pick)]))
+    (var i -1)
+    (each a sets
+      (++ i)
+      (eprint "CALL|" name "|" i "|" (string/format "%.60q" a))
+      (def fb (fiber/new (fn [] (v ;a)) :tdy))
+      (resume fb))))
+(eprint "SWEEP-DONE")
+(os/exit 0)
+'''
+
+SWEEP_DENY = ["os/exit", "os/posix-exec", "os/posix-fork", "os/posix-chroot", "quit", "sandbox", "getline", "stdin", "os/sleep", "ev/sleep", "ev/deadline", "ev/cancel", "ev/thread",
+              "os/proc-wait", "os/proc-kill", "os/proc-close", "gcsetinterval", "ffi/call", "ffi/trampoline", "ffi/read", "ffi/write", "ffi/free", "ffi/malloc", "ffi/pointer-buffer",
+              "ffi/pointer-cfunction", "ffi/jitfn", "ffi/native", "ffi/lookup", "ffi/close", "native", "ev/take", "ev/give", "ev/select", "ev/rselect", "ev/acquire-lock", "ev/acquire-rlock",
+              "ev/acquire-wlock", "ev/release-lock", "ev/release-rlock", "ev/release-wlock", "ev/read", "ev/chunk", "ev/write", "ev/close", "ev/give-supervisor", "net/accept", "net/accept-loop",
+              "net/read", "net/chunk", "net/write", "net/recv-from", "net/send-to", "net/flush", "net/close", "net/shutdown", "net/listen", "net/server", "net/connect", "net/address",
+              "file/read", "file/write", "file/close", "file/flush", "file/seek", "file/tell", "file/open", "file/temp", "resume", "cancel", "propagate", "yield", "signal", "error", "ev/go",
+              "prin", "prinf", "eprin", "eprinf", "xprin", "xprinf", "print", "printf", "eprint", "eprintf", "xprint", "xprintf", "flush", "eflush", "debug/break", "debug/step",
+              "verif/stats", "verif/table-check", "os/shell", "os/execute", "os/spawn", "os/rm", "os/rmdir", "os/mkdir", "os/rename", "os/link", "os/symlink", "os/chmod", "os/touch", "os/cd",
+              "os/open", "os/pipe", "os/setenv", "os/sigaction", "os/umask", "os/cryptorand", "os/setlocale", "os/isatty", "filewatch/new", "filewatch/listen", "gccollect", "debug/stack",
+              "os/clock", "os/time", "os/date", "os/mktime", "os/strftime", "math/seedrandom", "os/realpath", "os/stat", "os/lstat", "os/dir", "os/readlink", "os/environ", "os/getenv"]
+FAMILIES = ("string/", "buffer/", "array/", "tuple/", "symbol/", "keyword/", "struct/", "table/")
+FAMILY_NAMES = {"slice", "length", "get", "put", "in", "next", "min", "max", "min-of", "max-of", "range", "sort", "apply", "string", "buffer", "symbol", "keyword", "tuple", "array",
+                "struct", "table", "describe", "compare", "hash", "type", "scan-number", "memcmp", "bnot", "band", "bor", "bxor", "blshift", "brshift", "brushift"}
+
+
+def arity_memcheck(ctx):
+    import shutil
+    if not shutil.which("valgrind"):
+        raise core.HarnessError("valgrind not found")
+    exe = build.janet("plain")
+    quick = ctx.tier == "quick"
+    shards = 8 if quick else 64
+    per = 6 if quick else 30
+    outside = {}
+
+    def one(si):
+        d = core.case_dir()
+        path = os.path.join(d, "sweep.janet")
+        open(path, "w").write(SWEEP)
+        res = core.run(["valgrind", "-q", "--num-callers=8", "--error-exitcode=0", exe, path, " ".join(SWEEP_DENY), str(ctx.sub_seed("memcheck", si) % 1000000), str(per)],
+                       timeout=1500, cwd=d, san=False)
+        err = res.err.decode(errors="replace")
+        core.discard(res)
+        shutil.rmtree(d, ignore_errors=True)
+        if "SWEEP-DONE" not in err:
+            last = [l for l in err.splitlines() if l.startswith("CALL|")][-1:]
+            name = last[0].split("|")[1] if last else "?"
+            if res.timed_out:
+                with ctx.lock:
+                    ctx.inconclusive.append("memcheck-sweep-watchdog:" + name)
+                return
+            files = {"sweep.janet": SWEEP, "args.txt": "valgrind -q janet sweep.janet '<SWEEP_DENY>' %d %d" % (ctx.sub_seed("memcheck", si) % 1000000, per), "stderr_tail.txt": err[-3000:]}
+            if name.startswith(FAMILIES) or name in FAMILY_NAMES:
+                ctx.violation("crash-at:" + name, "process ended (rc=%s sig=%s) in short-argument sweep at %s" % (res.rc, res.sig, last), files)
+            else:
+                with ctx.lock:
+                    outside["crash:" + name] = (last[0] if last else "?")[:200]
+            return
+        cur = None
+        calls = 0
+        lines = err.splitlines()
+        for i, line in enumerate(lines):
+            if line.startswith("CALL|"):
+                cur = line
+                calls += 1
+                continue
+            if line.startswith("==") and ("uninitialised" in line or "Invalid read" in line or "Invalid write" in line or "Invalid free" in line or "overlap" in line) and cur:
+                name = cur.split("|")[1]
+                stack = "\n".join(lines[i:i + 8])
+                files = {"sweep.janet": SWEEP, "call.txt": cur, "memcheck.txt": stack,
+                         "case.janet": "# valgrind -q janet case.janet\n(def fb (fiber/new (fn [] (%s %s)) :tdy))\n(resume fb)\n" % (name, cur.split("|", 3)[3].strip("()[]") if cur.count("|") >= 3 else "")}
+                if name.startswith(FAMILIES) or name in FAMILY_NAMES:
+                    ctx.violation("memcheck:" + name, "memcheck: %s during %s" % (line.split("== ", 1)[-1], cur), files)
+                else:
+                    with ctx.lock:
+                        outside["memcheck:" + name] = cur[:200] + " :: " + line.split("== ", 1)[-1]
+        ctx.evals(calls)
+        ctx.count("memcheck_short_arity_calls", calls)
+
+    core.pmap(one, range(shards))
+    ctx.extra["memcheck_reports_outside_property_families"] = outside
+    for k, v in sorted(outside.items()):
+        print("NOTE C17 memcheck report outside the property's function families (not judged): %s %s" % (k, v))
 
 
 def parse_canon_ints(txt):
